@@ -95,7 +95,7 @@ def race_phase(ctx, binary):
     rcases = os.path.join(ctx.tmp, "race.jsonl")
     r = vlib.run_tlc(ctx, FAMILY, "ConfigRedactRace", "ConfigRedactRace.cfg", workers=1, cases_to=rcases, timeout=600)
     ctx.add_tlc(r)
-    for d in ("ConfigRedactRace_defect1.cfg", "ConfigRedactRace_defect2.cfg"):
+    for d in ("ConfigRedactRace_defect1.cfg", "ConfigRedactRace_defect2.cfg", "ConfigRedactRace_defect3.cfg"):
         if vlib.run_tlc(ctx, FAMILY, "ConfigRedactRace", d, workers=1, expect_ok=False)["ok"]:
             raise vlib.Inconclusive("ConfigRedactRace model does not reject " + d)
     rtrace = os.path.join(ctx.tmp, "race.ndjson")
